@@ -380,6 +380,18 @@ def getItem (c : Client) (table : Bytes) (key : Item) : Client × Out :=
       | .error _ => (c, .err .validation none)
       | .ok k => (c, .item (some (outItem c.sdk (t.getItem k))))
 
+/-- `Table.ValidateStartKey`: an ExclusiveStartKey has to be a key of the table and, for a read
+    through an index, hold the key of that index too -/
+def startKeyOk (t : Table) (q : Table.Query) : Bool :=
+  q.startKey.isEmpty ||
+    ((Key.getKey t.schema t.attrs q.startKey).toBool &&
+      match alookup q.index t.indexes with
+      | none => true
+      | some ix =>
+        match Key.getKey ix.schema t.attrs q.startKey with
+        | .ok k => !k.isEmpty
+        | .error _ => false)
+
 def searchOnce (c : Client) (table : Bytes) (q : Table.Query) (ex : Exprs) :
     Except Out (List Item × Item) :=
   match c.failure with
@@ -391,6 +403,7 @@ def searchOnce (c : Client) (table : Bytes) (q : Table.Query) (ex : Exprs) :
       | none => .error (.err .resourceNotFound none)
       | some t =>
         if !q.index.isEmpty && !ahas q.index t.indexes then .error (.err .validation none)
+        else if !startKeyOk t q then .error (.err .validation none)
         else match t.searchData (matcher c table ex) q with
           | .ok r => .ok (r.items.map (outItem c.sdk), outItem c.sdk r.lastKey)
           | .error cls => .error (.panicErr cls)
